@@ -1,5 +1,4 @@
-(* C19: FullDate, TDate and TDateOrFullDate realise the full-date / tdate value classes outside the
-   known defect classes. *)
+(* C19: FullDate, TDate and TDateOrFullDate realise the full-date / tdate value classes. *)
 From Coq Require Import Znumtheory.
 From Isomdl Require Import Lib.Bytes Lib.Utf8 Lib.Cbor Lib.GenTypes Lib.Civil.
 From Isomdl Require Import Gen.Constants Model.FromJson Spec.MdlDataModel Proofs.C19Leaves.
@@ -55,9 +54,9 @@ Definition fd_body (neg : bool) (r : bytes) : option (Z * Z * Z) :=
   | _ => None
   end.
 
-Lemma fulldate_parse_cons c r :
-  fulldate_parse (c :: r) = if c =? 43 then fd_body false r else if c =? 45 then fd_body true r else fd_body false (c :: r).
-Proof. unfold fulldate_parse. destruct (c =? 43); [reflexivity|]. destruct (c =? 45); reflexivity. Qed.
+Lemma time_date_parse_cons c r :
+  time_date_parse (c :: r) = if c =? 43 then fd_body false r else if c =? 45 then fd_body true r else fd_body false (c :: r).
+Proof. unfold time_date_parse. destruct (c =? 43); [reflexivity|]. destruct (c =? 45); reflexivity. Qed.
 
 Lemma fd_body_pos r : fd_body false r = spec_full_date_fields r.
 Proof. reflexivity. Qed.
@@ -82,15 +81,49 @@ Proof.
   inversion E; subst. unfold digits4, digits2 in H4. destruct (digit_z y1); [discriminate|discriminate].
 Qed.
 
-Lemma fulldate_render_id s y m d : spec_full_date_fields s = Some (y, m, d) -> (1000 <= y)%Z ->
-  fulldate_render y m d = s.
+Lemma fulldate_render_id s y m d : spec_full_date_fields s = Some (y, m, d) -> fulldate_render y m d = s.
 Proof.
-  intros H Hy. apply spec_fdf_inv in H as (y1 & y2 & y3 & y4 & m1 & m2 & d1 & d2 & -> & H4 & Hm & Hd & _).
-  unfold fulldate_render.
-  assert (Hlt : (y < 10000)%Z).
+  intros H. apply spec_fdf_inv in H as (y1 & y2 & y3 & y4 & m1 & m2 & d1 & d2 & -> & H4 & Hm & Hd & _).
+  unfold fulldate_render, fmt04.
+  assert (Hr : (0 <= y < 10000)%Z).
   { apply digits4_spec in H4 as (x1 & x2 & x3 & x4 & ? & ? & ? & ? & _ & _ & _ & _ & ->). lia. }
-  rewrite dec_z_4 by lia. rewrite (pad4_digits4 _ _ _ _ _ H4), (pad2_digits2 _ _ _ Hm), (pad2_digits2 _ _ _ Hd).
+  destruct (Z.leb_spec 0 y); [|lia]. destruct (Z.ltb_spec y 10000); [|lia]. cbn [andb].
+  rewrite (pad4_digits4 _ _ _ _ _ H4), (pad2_digits2 _ _ _ Hm), (pad2_digits2 _ _ _ Hd).
   reflexivity.
+Qed.
+
+Lemma is_digit_digit_z c : is_digit c = true <-> digit_z c <> None.
+Proof. unfold is_digit, digit_z. destruct ((48 <=? c) && (c <=? 57)); split; try discriminate; try reflexivity; intro H; exfalso; apply H; reflexivity. Qed.
+
+(* positions of the separator and of the seconds in a string time's RFC 3339 parser can split *)
+Lemma tdate_fields_pos s y mo d h mi sec off sep :
+  tdate_fields s = Some (y, mo, d, h, mi, sec, off, sep) ->
+  nth_error s 10 = Some sep /\
+  exists a c, nth_error s 17 = Some a /\ nth_error s 18 = Some c /\ digits2 a c = Some sec.
+Proof.
+  unfold tdate_fields.
+  do 19 (destruct s as [|? s]; try discriminate).
+  destruct ((n3 =? 45) && (n6 =? 45) && (n12 =? 58) && (n15 =? 58)); [|discriminate].
+  destruct (digits4 n n0 n1 n2); [|discriminate].
+  destruct (digits2 n4 n5); [|discriminate]. destruct (digits2 n7 n8); [|discriminate].
+  destruct (digits2 n10 n11); [|discriminate]. destruct (digits2 n13 n14); [|discriminate].
+  destruct (digits2 n16 n17) as [sc|] eqn:E; [|discriminate].
+  destruct (tdate_skip_fraction s) as [rr|]; [|discriminate]. destruct (tdate_offset rr); [|discriminate].
+  intro H. assert (sc = sec /\ n9 = sep) as [-> ->] by (split; congruence).
+  split; [reflexivity|]. exists n16, n17. auto.
+Qed.
+
+Lemma tdate_fields_short s : nth_error s 10 = None -> tdate_fields s = None.
+Proof.
+  intro H. destruct (tdate_fields s) as [[[[[[[[y mo] d] h] mi] sec] off] sep]|] eqn:F; [|reflexivity].
+  apply tdate_fields_pos in F as [F _]. congruence.
+Qed.
+
+Lemma digits2_60 a c : digits2 a c = Some 60%Z <-> (a = 54 /\ c = 48).
+Proof.
+  split.
+  - intro H. apply digits2_spec in H as (x & y & Hx & Hy & -> & -> & E). split; lia.
+  - intros [-> ->]. reflexivity.
 Qed.
 
 Section Dates.
@@ -98,32 +131,21 @@ Section Dates.
 
   Lemma fulldate_spec ctx j : leaf_spec0 b64 ctx VFullDate j (fulldate_leaf j).
   Proof.
-    destruct j; try (intros _; reflexivity).
-    unfold leaf_spec0. cbn [known0]. unfold fulldate_leaf, string_leaf, rbind.
-    destruct s as [|c r]; [intros _; reflexivity|].
-    unfold known_full_date. rewrite fulldate_parse_cons.
-    destruct (N.eqb_spec c 43) as [E43|N43]; [|destruct (N.eqb_spec c 45) as [E45|N45]]; cbn [orb andb].
-    - (* '+' *)
-      destruct (spec_full_date r) eqn:Sr; [discriminate|]. intros _.
-      change (fd_body false r) with (spec_full_date_fields r). unfold spec_full_date in Sr.
-      destruct (spec_full_date_fields r) as [[[y m] d]|]; [discriminate|].
-      cbn [dom0]. unfold spec_full_date.
-      destruct (spec_full_date_fields (c :: r)) as [[[y m] d]|] eqn:E; [|reflexivity].
-      apply spec_fdf_digit in E. subst c. exfalso. apply E. reflexivity.
-    - (* '-' *)
-      destruct (spec_full_date r) eqn:Sr; [discriminate|]. intros _.
-      rewrite fd_body_neg. unfold spec_full_date in Sr.
-      destruct (spec_full_date_fields r) as [[[y m] d]|]; [discriminate|].
-      cbn [dom0]. unfold spec_full_date.
-      destruct (spec_full_date_fields (c :: r)) as [[[y m] d]|] eqn:E; [|reflexivity].
-      apply spec_fdf_digit in E. subst c. exfalso. apply E. reflexivity.
-    - change (fd_body false (c :: r)) with (spec_full_date_fields (c :: r)).
+    unfold leaf_spec0. destruct j; try reflexivity.
+    unfold fulldate_leaf, string_leaf, rbind, fulldate_parse.
+    destruct s as [|c r]; [reflexivity|].
+    destruct (is_digit c) eqn:Dg.
+    - rewrite time_date_parse_cons.
+      destruct (N.eqb_spec c 43) as [->|_]; [discriminate|]. destruct (N.eqb_spec c 45) as [->|_]; [discriminate|].
+      change (fd_body false (c :: r)) with (spec_full_date_fields (c :: r)).
       destruct (spec_full_date_fields (c :: r)) as [[[y m] d]|] eqn:E.
-      + destruct (Z.ltb_spec y 1000) as [Hy|Hy]; [discriminate|]. intros _.
-        cbn [den0]. change fulldate_tag with 1004. rewrite N.eqb_refl.
-        unfold spec_full_date. rewrite E. rewrite (fulldate_render_id _ _ _ _ E Hy).
+      + cbn [den0]. change fulldate_tag with 1004. rewrite N.eqb_refl.
+        unfold spec_full_date. rewrite E. rewrite (fulldate_render_id _ _ _ _ E).
         cbn [andb]. apply bytes_eqb_refl.
-      + intros _. cbn [dom0]. unfold spec_full_date. rewrite E. reflexivity.
+      + cbn [dom0]. unfold spec_full_date. rewrite E. reflexivity.
+    - cbn [dom0]. unfold spec_full_date.
+      destruct (spec_full_date_fields (c :: r)) as [[[y m] d]|] eqn:E; [|reflexivity].
+      apply spec_fdf_digit in E. apply is_digit_digit_z in E. congruence.
   Qed.
 
   (* ---------- TDate ---------- *)
@@ -187,45 +209,94 @@ Section Dates.
     lia.
   Qed.
 
-  Lemma tdate_spec ctx j : leaf_spec0 b64 ctx VTDate j (tdate_leaf j).
+  (* time's part, for a string whose seconds field is not 60 *)
+  Lemma time_convert_spec s y mo d h mi sec off sep :
+    tdate_fields s = Some (y, mo, d, h, mi, sec, off, sep) -> sec <> 60%Z ->
+    (sep =? 84) || (sep =? 116) || (sep =? 32) = true ->
+    match time_convert s with
+    | Ok o => match spec_date_time s, spec_tdate_canonical o with
+              | Some i, Some i' => (i =? i')%Z
+              | _, _ => false
+              end = true
+    | Err _ => spec_date_time s = None
+    | Panic _ => False
+    end.
   Proof.
-    destruct j; try (intros _; reflexivity).
-    unfold leaf_spec0. cbn [known0]. unfold tdate_leaf, string_leaf, rbind, rmap, tdate_convert, known_tdate.
-    cbn [dom0 den0]. unfold spec_date_time, spec_date_time_instant.
-    destruct (tdate_fields s) as [[[[[[[[y mo] d] h] mi] sec] off] sep]|] eqn:F; [|intros _; reflexivity].
-    destruct (Z.eqb_spec sec 60) as [E60|N60]; [discriminate|].
-    destruct ((sep =? 84) || (sep =? 116) || (sep =? 32)) eqn:Esep; cbn [negb]; [|discriminate].
-    cbn [andb].
-    destruct ((valid_date y mo d && (h <=? 23) && (mi <=? 59) && (sec <=? 59))%Z) eqn:V; cbn [negb].
-    2:{ intros _. reflexivity. }
+    intros F N60 Esep. unfold time_convert, spec_date_time, spec_date_time_instant. rewrite F, Esep.
+    destruct (Z.eqb_spec sec 60) as [E60|_]; [contradiction|]. cbn [andb].
+    destruct ((valid_date y mo d && (h <=? 23) && (mi <=? 59) && (sec <=? 59))%Z) eqn:V; cbn [negb]; [|reflexivity].
     set (total := epoch_seconds y mo d h mi sec off).
-    destruct ((tdate_min <=? total) && (total <=? tdate_max))%Z eqn:R; [|discriminate]. intros _.
-    apply andb_true_iff in R as [R1 R2]. apply Z.leb_le in R1. apply Z.leb_le in R2.
     pose proof (civil_from_days_spec (total / 86400)) as C.
     pose proof (civil_year_range (total / 86400)) as Y.
+    pose proof (civil_year_range_conv (total / 86400)) as Y'.
     destruct (civil_from_days (total / 86400)) as [[uy um] ud]. destruct C as [Cv Cd].
-    assert (Hr : (days_from_civil 0 1 1 <= total / 86400 <= days_from_civil 9999 12 31)%Z).
-    { unfold tdate_min, tdate_max, epoch_seconds in R1, R2. split.
-      - apply Z.div_le_lower_bound; lia.
-      - assert (total / 86400 < days_from_civil 9999 12 31 + 1)%Z; [|lia]. apply Z.div_lt_upper_bound; lia. }
-    specialize (Y Hr).
-    destruct (Z.ltb_spec 9999 uy); [lia|]. destruct (Z.ltb_spec uy 0); [lia|].
-    cbn [den0]. change tdate_tag with 0. rewrite N.eqb_refl. cbn [andb].
     pose proof (Z.mod_pos_bound total 86400 ltac:(lia)) as Hsod.
+    pose proof (Z.div_mod total 86400 ltac:(lia)) as Hdm.
+    assert (Hiff : ((tdate_min <=? total) && (total <=? tdate_max))%Z = true <->
+                   (days_from_civil 0 1 1 <= total / 86400 <= days_from_civil 9999 12 31)%Z).
+    { unfold tdate_min, tdate_max, epoch_seconds. rewrite andb_true_iff, !Z.leb_le. split.
+      - intros [R1 R2]. split.
+        + apply Z.div_le_lower_bound; lia.
+        + assert (total / 86400 < days_from_civil 9999 12 31 + 1)%Z; [|lia]. apply Z.div_lt_upper_bound; lia.
+      - intros [R1 R2]. split; nia. }
+    destruct (Z.ltb_spec 9999 uy) as [Hhi|Hhi].
+    { destruct ((tdate_min <=? total) && (total <=? tdate_max))%Z; [|reflexivity].
+      specialize (Y (proj1 Hiff eq_refl)). lia. }
+    destruct (Z.ltb_spec uy 0) as [Hlo|Hlo].
+    { destruct ((tdate_min <=? total) && (total <=? tdate_max))%Z; [|reflexivity].
+      specialize (Y (proj1 Hiff eq_refl)). lia. }
+    assert (R : ((tdate_min <=? total) && (total <=? tdate_max))%Z = true) by (apply Hiff, Y'; lia).
+    rewrite R.
     destruct (sod_split _ Hsod) as (Hh & Hm & Hs & Hsum).
     rewrite canonical_render by (try assumption; lia).
-    apply Z.eqb_eq. unfold epoch_seconds at 1. rewrite Cd.
-    pose proof (Z.div_mod total 86400 ltac:(lia)). lia.
+    apply Z.eqb_eq. unfold epoch_seconds at 1. rewrite Cd. lia.
+  Qed.
+
+  Lemma time_convert_none s : tdate_fields s = None -> time_convert s = Err EParsing.
+  Proof. intro F. unfold time_convert. rewrite F. reflexivity. Qed.
+
+  Lemma tdate_spec ctx j : leaf_spec0 b64 ctx VTDate j (tdate_leaf j).
+  Proof.
+    unfold leaf_spec0. destruct j; try reflexivity.
+    unfold tdate_leaf, string_leaf, rbind, rmap. cbn [dom0 den0].
+    assert (Hgoal : match tdate_convert s with
+                    | Ok o => match spec_date_time s, spec_tdate_canonical o with
+                              | Some i, Some i' => (i =? i')%Z
+                              | _, _ => false
+                              end = true
+                    | Err _ => spec_date_time s = None
+                    | Panic _ => False
+                    end).
+    { unfold tdate_convert.
+      destruct (tdate_fields s) as [[[[[[[[y mo] d] h] mi] sec] off] sep]|] eqn:F.
+      - destruct (tdate_fields_pos _ _ _ _ _ _ _ _ _ F) as (P10 & a & c & P17 & P18 & Dsec).
+        rewrite P10, P17, P18.
+        destruct ((sep =? 84) || (sep =? 116) || (sep =? 32)) eqn:Esep.
+        + destruct ((a =? 54) && (c =? 48)) eqn:E60.
+          * apply andb_true_iff in E60 as [Ea Ec]. apply N.eqb_eq in Ea. apply N.eqb_eq in Ec.
+            assert (sec = 60%Z) by (assert (X : digits2 a c = Some 60%Z) by (apply digits2_60; auto); congruence).
+            subst sec. unfold spec_date_time, spec_date_time_instant. rewrite F, Esep. cbn [andb].
+            rewrite !andb_false_r. reflexivity.
+          * apply (time_convert_spec s y mo d h mi sec off sep F); [|exact Esep].
+            intro X. subst sec. apply digits2_60 in Dsec as [-> ->]. discriminate.
+        + unfold spec_date_time, spec_date_time_instant. rewrite F, Esep. reflexivity.
+      - assert (Hn : spec_date_time s = None) by (unfold spec_date_time, spec_date_time_instant; rewrite F; reflexivity).
+        rewrite (time_convert_none s F).
+        destruct (nth_error s 10) as [sep|]; [|exact Hn].
+        destruct ((sep =? 84) || (sep =? 116) || (sep =? 32)); [|exact Hn].
+        destruct (nth_error s 17) as [a|]; [|exact Hn]. destruct (nth_error s 18) as [c|]; [|exact Hn].
+        destruct ((a =? 54) && (c =? 48)); exact Hn. }
+    destruct (tdate_convert s) as [o|e|p].
+    - change tdate_tag with 0. rewrite N.eqb_refl. exact Hgoal.
+    - rewrite Hgoal. reflexivity.
+    - exact Hgoal.
   Qed.
 
   Lemma tdate_or_fulldate_spec ctx j : leaf_spec0 b64 ctx VTDateOrFullDate j (tdate_or_fulldate_leaf j).
   Proof.
-    destruct j; try (intros _; reflexivity).
-    unfold leaf_spec0. cbn [known0]. intro K.
-    assert (K1 : known_tdate s = None) by (destruct (known_tdate s); [discriminate|reflexivity]).
-    assert (K2 : known_full_date s = None) by (rewrite K1 in K; exact K).
-    pose proof (tdate_spec ctx (JStr s) K1) as T. pose proof (fulldate_spec ctx (JStr s) K2) as D.
-    unfold tdate_or_fulldate_leaf.
+    unfold leaf_spec0. destruct j; try reflexivity.
+    pose proof (tdate_spec ctx (JStr s)) as T. pose proof (fulldate_spec ctx (JStr s)) as D.
+    unfold leaf_spec0 in T, D. unfold tdate_or_fulldate_leaf.
     destruct (tdate_leaf (JStr s)) as [v|e|p].
     - cbn [den0] in T. destruct v; try discriminate. destruct v; try discriminate.
       cbn [den0]. rewrite T. reflexivity.
